@@ -499,8 +499,17 @@ fn lean_term(t: &ST, ns: &mut Names, out: &mut String) -> bool {
             }
             out.push_str("nil ");
         }
-        // compound terms are outside the Lean surface model (the elaborated program still goes through the engine model)
-        ST::Comp(..) => return false,
+        // a compound constructor / pattern: `comp<tag>` and the arguments as a cons-list (as `Term.comp` in the model)
+        ST::Comp(g, a) => {
+            out.push_str(&format!("comp{} ", g));
+            for x in a {
+                out.push_str("cons ");
+                if !lean_term(x, ns, out) {
+                    return false;
+                }
+            }
+            out.push_str("nil ");
+        }
         ST::Improper(v, tl) => {
             for x in v {
                 out.push_str("cons ");
